@@ -43,18 +43,35 @@ impl PidAllocator {
     }
 
     pub fn allocate(&self) -> Result<ExternalPid> {
+        #[cfg(edp_rs_verif)]
+        {
+            // Scheduling points for the deterministic thread scheduler of the verification
+            // harness: never block on the lock while holding the scheduler's baton.
+            crate::verif::sync_point("pid_allocator::enter");
+            while self.wrap_lock.try_lock().is_err() {
+                crate::verif::sync_point("pid_allocator::blocked");
+            }
+        }
         let _guard = self.wrap_lock.lock().map_err(|e| {
             Error::InvalidStateMessage(format!("PID allocator lock poisoned: {}", e))
         })?;
 
         let id = self.next_id.load(Ordering::Relaxed);
+        #[cfg(edp_rs_verif)]
+        crate::verif::sync_point("pid_allocator::loaded_id");
         let serial_u64 = self.next_serial.load(Ordering::Relaxed);
+        #[cfg(edp_rs_verif)]
+        crate::verif::sync_point("pid_allocator::loaded_serial");
         let serial = (serial_u64 % (u32::MAX as u64 + 1)) as u32;
 
         let next_id = id + 1;
         if id >= MAX_PROCESSES_PER_NODE {
             self.next_id.store(1, Ordering::Relaxed);
+            #[cfg(edp_rs_verif)]
+            crate::verif::sync_point("pid_allocator::reset_id");
             let new_serial = self.next_serial.fetch_add(1, Ordering::Relaxed) + 1;
+            #[cfg(edp_rs_verif)]
+            crate::verif::sync_point("pid_allocator::bumped_serial");
             let wrapped_serial = (new_serial % (u32::MAX as u64 + 1)) as u32;
 
             Ok(ExternalPid::new(
@@ -65,6 +82,8 @@ impl PidAllocator {
             ))
         } else {
             self.next_id.store(next_id, Ordering::Relaxed);
+            #[cfg(edp_rs_verif)]
+            crate::verif::sync_point("pid_allocator::stored_id");
 
             Ok(ExternalPid::new(
                 self.node_name.clone(),
